@@ -54,6 +54,7 @@ type Script struct {
 	miss    map[int64][]int    // height -> indexes of node keys that do not sign
 	actions map[int64][]string // height -> "unstake:<i>" | "stake:<i>"
 	step    time.Duration
+	window  int64
 }
 
 func (h *Hist) nextEntropy() int64 { h.entropy++; return h.entropy }
@@ -113,7 +114,14 @@ func newHist(id int, mode string, r *gen.R, tr *gen.Trace) *Hist {
 	nGen := 3 + r.Intn(4)
 	if (mode == "c25" || mode == "all") && id%5 == 3 {
 		// stale missed-block bits: node 0 misses blocks 4-5, unstakes, is paid out, stakes again and signs
-		h.script = &Script{miss: map[int64][]int{4: {0}, 5: {0}}, actions: map[int64][]string{5: {"unstake:0"}, 9: {"stake:0"}}, step: 2 * time.Minute}
+		h.script = &Script{miss: map[int64][]int{4: {0}, 5: {0}}, actions: map[int64][]string{5: {"unstake:0"}, 9: {"stake:0"}}, step: 2 * time.Minute, window: 100}
+		nGen = 3
+	}
+	if (mode == "c25" || mode == "all") && id%5 == 4 {
+		// downtime jail and unjail timing: node 1 misses blocks 3-8 (window 10, 5 must be signed: jailed at the 6th miss),
+		// jail period 10 minutes, blocks every 2 minutes; unjail attempts before, just before, exactly at and after the end
+		h.script = &Script{miss: map[int64][]int{3: {1}, 4: {1}, 5: {1}, 6: {1}, 7: {1}, 8: {1}},
+			actions: map[int64][]string{9: {"unjail:1"}, 11: {"unjail:1"}, 12: {"unjail:1"}, 13: {"unjail:1"}, 14: {"unjail:1"}, 15: {"unjail:1"}}, step: 2 * time.Minute, window: 10}
 		nGen = 3
 	}
 	o.Mutate = func(g *chain.Genesis) {
@@ -122,22 +130,29 @@ func newHist(id int, mode string, r *gen.R, tr *gen.Trace) *Hist {
 		p.SessionBlockFrequency = int64(2 + r.Intn(4))
 		p.UnstakingTime = []time.Duration{0, time.Minute, 5 * time.Minute, time.Hour, 30 * time.Hour}[r.Intn(5)]
 		p.SignedBlocksWindow = int64([]int{10, 10, 11, 12}[r.Intn(4)])
-		if h.script != nil {
-			p.MaxValidators, p.SessionBlockFrequency, p.UnstakingTime, p.SignedBlocksWindow = 5, 2, time.Minute, 100
-		}
 		p.MinSignedPerWindow = sdk.NewDecWithPrec(int64([]int{50, 60, 75, 90}[r.Intn(4)]), 2)
 		p.DowntimeJailDuration = []time.Duration{time.Minute, 10 * time.Minute, 2 * time.Hour}[r.Intn(3)]
 		p.MaxJailedBlocks = int64([]int{2, 5, 9, 1000}[r.Intn(4)])
-		p.SlashFractionDowntime = sdk.NewDecWithPrec(int64([]int{1, 1, 30, 100}[r.Intn(4)]), 2)
+		p.SlashFractionDowntime = sdk.NewDecWithPrec(int64([]int{1, 100, 100, 3000, 10000}[r.Intn(5)]), 4)
 		p.SlashFractionDoubleSign = sdk.NewDecWithPrec(int64([]int{5, 5, 50, 100}[r.Intn(4)]), 2)
 		p.MaxEvidenceAge = []time.Duration{2 * time.Minute, 30 * time.Minute, 3 * time.Hour}[r.Intn(3)]
 		p.MaximumChains = int64([]int{2, 3, 15}[r.Intn(3)])
+		if h.script != nil {
+			p.MaxValidators, p.SessionBlockFrequency, p.UnstakingTime, p.SignedBlocksWindow = 5, 2, time.Minute, h.script.window
+			p.MinSignedPerWindow = sdk.NewDecWithPrec(50, 2)
+			p.DowntimeJailDuration = 10 * time.Minute
+			p.SlashFractionDowntime = sdk.NewDecWithPrec(1, 4)
+			p.MaxJailedBlocks = 1000
+		}
 		// the stake-weight parameters are skipped by InitGenesis (their feature is not active at height 0);
 		// the owner sets them through governance in block 3 (see setup)
 		// and the genesis ACL must list exactly the parameters that exist at genesis: the owner extends it first
 		for i := 0; i < nGen; i++ {
 			k := h.nodes[i]
-			tok := h.minStake + int64([]int{0, 1, 999999, 1000000, 2500000, 15000000000, 30000000001}[r.Intn(7)])
+			tok := h.minStake + int64([]int{0, 1, 999999, 1000000, 2500000, 1000000000, 5000000000, 15000000000, 30000000001}[r.Intn(9)])
+			if h.script != nil {
+				tok = h.minStake + 1000000000
+			}
 			var outAddr sdk.Address
 			switch r.Intn(4) {
 			case 0:
